@@ -65,7 +65,4 @@ def ivlsOfJson : Json → Option (List EIvl)
 
 def getIvls (j : Json) (k : String) : Option (List EIvl) := (getObj j k).bind ivlsOfJson
 
-def storeJ (s : Store) : Json :=
-  Json.arr (s.map fun (k, v) => Json.arr #[Json.str k, ivlsJ v]).toArray
-
 end RtcVerif.C04
